@@ -32,13 +32,25 @@ VARIABLES settings, stage, outcome, layout
 vars == <<settings, stage, outcome, layout>>
 
 FieldSets == {{}} \cup {{f} : f \in FieldNames} \cup {{"request_id", f} : f \in FieldNames \ {"request_id"}}
-Entries == [selector : Selectors, fields : FieldSets]
+\* an entry may also carry long_running tuning (lro); a TUNING-ONLY entry has it and no auto-populated field - it is an entry of
+\* the list like any other: its selector counts for the duplicate rule
+Entries == [selector : Selectors, fields : FieldSets, lro : {FALSE}]
+Tuning(s) == [selector |-> s, fields |-> {}, lro |-> TRUE]
+Auto(s)   == [selector |-> s, fields |-> {"request_id"}, lro |-> FALSE]
+Bare(s)   == [selector |-> s, fields |-> {}, lro |-> FALSE]
+UnarySels == {s \in Selectors : MethodKind[s] = "unary"}
+DistinctPairs == {q \in UnarySels \X UnarySels : q[1] # q[2]}
+TuningLists == {<<Tuning(s)>> : s \in UnarySels}
+                 \cup {<<Tuning(s), Auto(s)>> : s \in UnarySels} \cup {<<Auto(s), Tuning(s)>> : s \in UnarySels}
+                 \cup {<<Tuning(p[1]), Bare(p[2]), Auto(p[1])>> : p \in DistinctPairs}
+                 \cup {<<Tuning(p[1]), Auto(p[2])>> : p \in DistinctPairs}
 \* lists of three entries: valid unary entries only, so that the ONLY possible violation is a duplicate selector -
 \* adjacent (positions 1,2 / 2,3) or not adjacent (positions 1,3)
 Plain == {e \in Entries : MethodKind[e.selector] = "unary" /\ e.fields \in {{}, {"request_id"}}}
 Init == /\ settings \in {<<>>} \cup {<<e>> : e \in Entries}
                       \cup {<<e1, e2>> : e1 \in {e \in Entries : e.fields \subseteq {"request_id"}}, e2 \in {e \in Entries : Cardinality(e.fields) <= 1}}
                       \cup {<<e1, e2, e3>> : e1 \in Plain, e2 \in Plain, e3 \in Plain}
+                      \cup TuningLists
         /\ stage = "loaded" /\ outcome = "pending"
         /\ layout \in IF Len(settings) = 2 THEN {"root"} ELSE {"root", "sub", "mixed"}
 
@@ -59,7 +71,7 @@ Spec == Init /\ [][Next]_vars /\ WF_vars(Next)
 Inv_FailIffViolation == stage = "done" => (outcome = "generated" <=> Valid(settings))
 Inv_SingleViolationFails == stage = "done" /\ Len(settings) = 1 /\ settings[1].fields # {} /\ ~EntryOk(settings[1]) => outcome # "generated"
 Live == <>(stage = "done")
-Case == [settings |-> [i \in 1..Len(settings) |-> [selector |-> settings[i].selector, fields |-> SetToSeq(settings[i].fields)]],
+Case == [settings |-> [i \in 1..Len(settings) |-> [selector |-> settings[i].selector, fields |-> SetToSeq(settings[i].fields), lro |-> settings[i].lro]],
          layout |-> layout, expect |-> outcome]
 Emit == stage = "done" => PrintT(<<"CASE", ToJson(Case)>>)
 =============================================================================
